@@ -609,6 +609,12 @@ func (e *Env) call(n ECall) *Val {
 			e.fail("wf needs a slice")
 		}
 		return boolVal(and("(<= 0 "+v.A[1]+")", "(<= 0 "+v.A[2]+")", "(<= "+v.A[2]+" "+v.A[3]+")", "(<= 0 "+v.A[0]+")", implies(eq(v.A[0], "0"), and(eq(v.A[2], "0"), eq(v.A[3], "0")))))
+	case "useCntZero": // always true; its presence lets the solver use the count-zero lemma for counts over this slice
+		v := arg(0)
+		if len(v.A) != 4 {
+			e.fail("useCntZero needs a slice")
+		}
+		return boolVal("(cntzmark " + v.A[0] + " " + v.A[1] + " " + v.A[2] + ")")
 	case "sinceLock": // two-state formula with "old" meaning the state in which this goroutine last acquired the lock
 		ne := *e
 		if e.st.LockSnap != nil {
@@ -766,6 +772,9 @@ func (e *Env) call(n ECall) *Val {
 				}
 			}
 			vars[p.Name] = a
+		}
+		if ps.Opaque && e.st.Formal == nil {
+			return e.opaqueCall(ps, vars)
 		}
 		ne := &Env{tr: e.tr, vars: vars, st: e.st, old: e.old, pkg: e.tr.W.Pkgs[ps.Pkg].Types, depth: e.depth + 1, allocOld: e.allocOld, assuming: e.assuming}
 		return ne.eval(ps.Body)
@@ -1003,6 +1012,32 @@ func (e *Env) cnt(n ECall) *Val {
 			e.tr.lemmaVCs = append(e.tr.lemmaVCs, lemmaVC{name: "lemma/cntFrame[" + id.Name + "]", rec: rec,
 				decls: strings.Join(d1, " ") + " " + strings.Join(d2, " "), pre: pre, c1: c1, c2: c2, fname: fname, a1: strings.Join(a1, " "), a2: strings.Join(a2, " ")})
 		}
+		// zero lemma (proved once by induction, see lemma/cntZero): no element of the first n satisfies the
+		// predicate ==> the count is 0; stated per count term as "count is 0 or some index satisfies the predicate"
+		{
+			var d1, a1 []string
+			for _, name := range fst.FormalOrder {
+				f := fst.Formal[name]
+				d1 = append(d1, "("+f+" "+e.tr.comps[name]+")")
+				a1 = append(a1, f)
+			}
+			pi := replaceToken(body.one(), "n", "(+ i 1)")
+			pre := "(forall ((i Int)) (=> (and (<= 0 i) (< i n)) (not " + pi + ")))"
+			c1 := "(" + fname + " " + strings.Join(a1, " ") + " b o n)"
+			// triggered only where a specification asks for it (useCntZero(s) puts the marker term into the query):
+			// instantiating it for every count term makes the slow queries of ScheduleAsync three times slower
+			ax := "(forall (" + strings.Join(d1, " ") + " (b Int) (o Int) (n Int)) (! (=> " + pre + " (= " + c1 + " 0)) :pattern (" + c1 + " (cntzmark b o n))))"
+			e.tr.emit("(assert " + ax + ")")
+			var cmds []string
+			cmds = append(cmds, rec)
+			for _, name := range fst.FormalOrder {
+				cmds = append(cmds, "(declare-const "+fst.Formal[name]+" "+e.tr.comps[name]+")")
+			}
+			cmds = append(cmds, "(declare-const b Int)", "(declare-const o Int)", "(declare-const n Int)", "(assert (>= n 0))", "(assert "+pre+")",
+				"(assert (=> (> n 0) (= ("+fname+" "+strings.Join(a1, " ")+" b o (- n 1)) 0)))")
+			e.tr.lemmaVCs = append(e.tr.lemmaVCs, lemmaVC{name: "lemma/cntZero[" + id.Name + "]", custom: cmds, goal: "(= " + c1 + " 0)",
+				src: "count zero lemma by induction on n: if none of the first n elements satisfies the predicate the count is 0"})
+		}
 		info = &cntInfo{name: fname, comps: actualComps}
 		if e.tr.cntFuncs == nil {
 			e.tr.cntFuncs = map[string]*cntInfo{}
@@ -1014,6 +1049,60 @@ func (e *Env) cnt(n ECall) *Val {
 		actuals = append(actuals, e.tr.cur(e.st, c))
 	}
 	return intVal("(" + info.name + " " + strings.Join(actuals, " ") + " " + s.A[0] + " " + s.A[1] + " " + s.A[2] + ")")
+}
+
+// opaqueCall: application of an opaque predicate. The predicate becomes an SMT function of its (scalar)
+// arguments and of the heap components its body reads; its definition is one axiom triggered on the application.
+func (e *Env) opaqueCall(ps *PureSpec, vars map[string]*Val) *Val {
+	key := "opq_" + ps.Name
+	info := e.tr.cntFuncs[key]
+	if info == nil {
+		fst := &State{Comps: map[string]string{}, Gen: -1, Formal: map[string]string{}}
+		fvars := map[string]*Val{}
+		var pdecl, pargs []string
+		for i, p := range ps.Params {
+			a := vars[p.Name]
+			if len(a.A) != 1 {
+				e.fail("opaque %s: parameter %s is not a scalar", ps.Name, p.Name)
+			}
+			nm := fmt.Sprintf("op%d", i)
+			fvars[p.Name] = &Val{T: a.T, A: []string{nm}}
+			pdecl = append(pdecl, "("+nm+" Int)")
+			pargs = append(pargs, nm)
+		}
+		fe := &Env{tr: e.tr, st: fst, old: fst, pkg: e.tr.W.Pkgs[ps.Pkg].Types, vars: fvars, allocOld: "0", depth: e.depth + 1}
+		body := fe.eval(ps.Body).one()
+		var sorts []string
+		var comps []Comp
+		for _, name := range fst.FormalOrder {
+			pdecl = append(pdecl, "("+fst.Formal[name]+" "+e.tr.comps[name]+")")
+			pargs = append(pargs, fst.Formal[name])
+			sorts = append(sorts, e.tr.comps[name])
+			comps = append(comps, Comp{name, e.tr.comps[name], false})
+		}
+		fname := sym(key)
+		var dom []string
+		for range ps.Params {
+			dom = append(dom, "Int")
+		}
+		dom = append(dom, sorts...)
+		e.tr.emit("(declare-fun " + fname + " (" + strings.Join(dom, " ") + ") Bool)")
+		app := "(" + fname + " " + strings.Join(pargs, " ") + ")"
+		e.tr.emit("(assert (forall (" + strings.Join(pdecl, " ") + ") (! (= " + app + " " + body + ") :pattern (" + app + "))))")
+		info = &cntInfo{name: fname, comps: comps}
+		if e.tr.cntFuncs == nil {
+			e.tr.cntFuncs = map[string]*cntInfo{}
+		}
+		e.tr.cntFuncs[key] = info
+	}
+	var actuals []string
+	for _, p := range ps.Params {
+		actuals = append(actuals, vars[p.Name].A[0])
+	}
+	for _, c := range info.comps {
+		actuals = append(actuals, e.tr.cur(e.st, c))
+	}
+	return boolVal("(" + info.name + " " + strings.Join(actuals, " ") + ")")
 }
 
 type cntInfo struct {
@@ -1082,6 +1171,8 @@ func (e *Env) allElems(n ECall) *Val {
 
 type lemmaVC struct {
 	name, rec, decls, pre, c1, c2, fname, a1, a2 string
+	custom                                       []string // complete command list (other lemma shapes)
+	goal, src                                    string
 }
 
 // replaceToken replaces whole-token occurrences (delimited by space or parentheses) of old by new.
